@@ -98,7 +98,7 @@ class Ctx:
     # ---- output ---------------------------------------------------------------
     def finish(self):
         wall = round(time.time() - self.t0, 2)
-        evdir = os.path.join(VERIF, "evidence")
+        evdir = os.environ.get("KV_EVIDENCE_DIR") or os.path.join(VERIF, "evidence")
         os.makedirs(evdir, exist_ok=True)
         n_ob = len(self.obligations)
         n_ok = sum(1 for o in self.obligations if o[3])
